@@ -32,6 +32,8 @@ noncomputable instance instScalarComplex : Scalar ℂ where
   one := 1
   ofNat := fun n => (n : ℂ)
   sqrtRe := fun z => ((Real.sqrt z.re : ℝ) : ℂ)
+  absGt := fun a b => @decide (Complex.normSq a > Complex.normSq b) (Classical.propDecidable _)
+  beq := fun a b => @decide (a = b) (Classical.propDecidable _)
   phasor := fun whole k n => Complex.exp (-(Complex.I * (gridOmega whole k n : ℂ)))
 
 open ComplexConjugate
@@ -47,6 +49,9 @@ open ComplexConjugate
 @[simp] lemma sc_one : (Scalar.one : ℂ) = 1 := rfl
 @[simp] lemma sc_ofNat (n : ℕ) : (Scalar.ofNat n : ℂ) = (n : ℂ) := rfl
 @[simp] lemma sc_sqrtRe (a : ℂ) : Scalar.sqrtRe a = ((Real.sqrt a.re : ℝ) : ℂ) := rfl
+lemma sc_beq (a b : ℂ) : Scalar.beq a b = true ↔ a = b := by
+  show @decide (a = b) (Classical.propDecidable _) = true ↔ a = b
+  simp
 lemma sc_phasor (w : Bool) (k n : ℕ) :
     (Scalar.phasor w k n : ℂ) = Complex.exp (-(Complex.I * (gridOmega w k n : ℂ))) := rfl
 
